@@ -12,7 +12,7 @@
 From Coq Require Import List NArith ZArith Bool Permutation.
 From RPFT Require Import Base.Sexp Base.PyStr Base.Result Gen.Tables Cell.Cell Row.Ty Row.Layout Row.RowParse
   Row.RowUnparse Row.FlowRow Row.RowFacts Row.TextFacts Row.RoundTrip Row.RoundTripFacts Row.RoundTripExamples
-  Row.RefuteFacts Row.CtxRoundTripFacts Row.FlowRowFacts Row.OrderFacts.
+  Row.RefuteFacts Row.CtxRoundTripFacts Row.FlowRowFacts Row.OrderFacts Row.Session Row.SessionFacts Row.SessionExamples.
 Import ListNotations.
 
 (* the regenerated constants satisfy what the proofs need *)
@@ -205,3 +205,65 @@ Theorem C07_xlsx_row_survives_repaired :
   xlsx_export_text_cells = true -> forall cells : list str, map xlsx_cell_roundtrip cells = cells.
 Proof. exact xlsx_row_survives_repaired. Qed.
 Print Assumptions C07_xlsx_row_survives_repaired.
+
+(* 5. sessions (Row/Session.v): a FAMILY of classes — some derived from an earlier one the way pydantic collects the
+      fields of a subclass — and a SEQUENCE of operations on the long-lived parsers of these classes, run through
+      the state machine [run_session] that keeps what RowParser keeps between two calls (its two registers).
+      The outcome of every operation is the pure function of the class description and the arguments: nothing an
+      earlier operation did (on the same class, on a base class, on a sibling, a failed call, a new parser) enters.
+      The harness runs the SAME sessions through the extracted [run_session] and through ONE long-lived set of
+      implementation classes / RowParsers and compares every step. *)
+Theorem C07_session_history_independent : forall fam ops,
+  run_session fam ops = map (op_result (classes fam)) ops.
+Proof. exact session_history_independent. Qed.
+Print Assumptions C07_session_history_independent.
+
+(* ... in particular: an operation in the middle of a session yields what it yields as the only operation *)
+Theorem C07_session_same_as_fresh : forall fam before o after,
+  nth_error (run_session fam (before ++ o :: after)) (length before) = nth_error (run_session fam [o]) 0.
+Proof. exact session_same_as_fresh. Qed.
+Print Assumptions C07_session_same_as_fresh.
+
+(* ... whatever the registers hold when the session starts *)
+Theorem C07_session_initial_state_irrelevant : forall cls ops st,
+  run_from cls st ops = map (op_result cls) ops.
+Proof. exact session_initial_state_irrelevant. Qed.
+Print Assumptions C07_session_initial_state_irrelevant.
+
+(* the round trip at ANY point of ANY session, for ANY class of the family (derived ones included) *)
+Theorem C07_session_roundtrip : forall fam before k v targets after root,
+  class_of (classes fam) k = Some root ->
+  row_dom root v targets = true ->
+  nth_error (run_session fam (before ++ OpRound k v targets :: after)) (length before) = Some (RValue (Ok v)).
+Proof. exact session_roundtrip. Qed.
+Print Assumptions C07_session_roundtrip.
+
+(* a derived class is judged against ITS OWN declarations: a field its body declares has the type and default
+   written there whatever the base class says, any other field is the base's; class k of a family depends on the
+   classes BEFORE it only *)
+Theorem C07_derived_class_own_default : forall fam k p over h g pfs ph pg n t d,
+  nth_error fam k = Some (DDerive p over h g) ->
+  class_of (classes fam) p = Some (TModel pfs ph pg) ->
+  (p < k)%nat ->
+  NoDup (map f_name over) -> In (n, (t, d)) over ->
+  exists fs h' g', class_of (classes fam) k = Some (TModel fs h' g')
+                   /\ field_lookup fd fs n = Some (t, d)
+                   /\ (forall m, ~ In m (map f_name over) -> field_lookup fd fs m = field_lookup fd pfs m).
+Proof. exact derived_class_own_default. Qed.
+Print Assumptions C07_derived_class_own_default.
+
+(* non-vacuity: Question / FollowUp(Question) with other defaults; FollowUp(attempts=3, required=True, weight=1.0)
+   — the BASE class's defaults — after a Question was written: the three cells are written, the row reads back *)
+Example C07_session_nonvacuous_classes : classes ex_family = [Some ex_question; Some ex_followup].
+Proof. exact ex_classes. Qed.
+Print Assumptions C07_session_nonvacuous_classes.
+
+Example C07_session_roundtrip_nonvacuous :
+  class_of (classes ex_family) 1 = Some ex_followup /\ row_dom ex_followup ex_f2 [] = true.
+Proof. exact ex_followup_hyps. Qed.
+Print Assumptions C07_session_roundtrip_nonvacuous.
+
+Example C07_session_nonvacuous_run :
+  run_session ex_family ex_ops = [RValue (Ok ex_q1); RCells (Ok ex_f2_cells); RDone; RValue (Ok ex_f2)].
+Proof. exact ex_session_run. Qed.
+Print Assumptions C07_session_nonvacuous_run.
